@@ -198,6 +198,20 @@ func (f *Frame) resolve(t types.Type) types.Type {
 // sortOf gives the SMT sort used when a value of Go type t is stored in a
 // container (array element, map key/value, struct-in-container) or passed to
 // an uninterpreted function.
+// isValuelike: pointers to such types are stored in containers as (nil flag, pointee value):
+// integers and booleans (e.g. *uint16) and struct types declared `valuelike` in a contract
+// file (records that are never mutated after they have been stored).
+func (in *Interp) isValuelike(t types.Type) bool {
+	t = types.Unalias(t)
+	if nn := namedName(t); nn != "" && in.W.valuelike[nn] {
+		return true
+	}
+	if b, ok := t.Underlying().(*types.Basic); ok {
+		return b.Info()&(types.IsInteger|types.IsBoolean) != 0
+	}
+	return false
+}
+
 // isBigInt: math/big.Int is modelled as a mathematical integer (sort Int, no range).
 func isBigInt(t types.Type) bool { return namedName(types.Unalias(t)) == "math/big.Int" }
 
@@ -242,6 +256,12 @@ func (in *Interp) sortOf(t types.Type) string {
 	case *types.Struct:
 		return in.structSort(t, u)
 	case *types.Pointer:
+		if in.isValuelike(u.Elem()) {
+			es := in.sortOf(u.Elem())
+			name := "VPtr_" + sanitize(es)
+			in.D.declareOnce("dt:"+name, fmt.Sprintf("(declare-datatypes ((%s 0)) (((mk_%s (%s_nil Bool) (%s_val %s)))))", name, name, name, name, es))
+			return name
+		}
 		return SRef
 	case *types.Interface:
 		in.D.declareSort("Iface")
@@ -604,6 +624,19 @@ func (in *Interp) freeze(v Val, t types.Type, st *State, f *Frame) Term {
 		}
 		return App("mk_"+s, s, args...)
 	case PtrV:
+		if pt, ok := t.Underlying().(*types.Pointer); ok && in.isValuelike(pt.Elem()) {
+			s := in.sortOf(t)
+			in.note("pointers to immutable records / scalars are stored in containers by value (nil flag + pointee); assumption: the pointee is not mutated afterwards")
+			var content Val
+			if st != nil {
+				content = in.load(st, x.To, f)
+			} else if c, ok := in.initial[x.To]; ok {
+				content = c
+			} else {
+				content = in.zeroVal(pt.Elem(), f)
+			}
+			return App("mk_"+s, s, x.Nil, in.freeze(content, pt.Elem(), st, f))
+		}
 		return in.refOf(x)
 	case MapV:
 		mc := in.load(st, x.M, f).(MapC)
@@ -661,7 +694,12 @@ func (in *Interp) thaw(tm Term, t types.Type, f *Frame) Val {
 				sv.F[i] = Sc{TTrue}
 				continue
 			}
-			sv.F[i] = in.thaw(App(s+"_"+fl.Name(), in.sortOf(fl.Type()), tm), fl.Type(), f)
+			ft := App(s+"_"+fl.Name(), in.sortOf(fl.Type()), tm)
+			if ft.Sort == SInt && !strings.Contains(ft.S, "!q") && !strings.Contains(ft.S, "p0!") && !strings.Contains(ft.S, "p1!") {
+				// integers stored in containers came from Go values of the field's type
+				in.assumeGlobal(inRange(ft, fl.Type()))
+			}
+			sv.F[i] = in.thaw(ft, fl.Type(), f)
 		}
 		return sv
 	case *types.Map:
@@ -671,6 +709,12 @@ func (in *Interp) thaw(tm Term, t types.Type, f *Frame) Val {
 		in.initial[c] = MapC{Has: App(s+"_has", MapSortOf(ks, SBool), tm), Val: App(s+"_val", MapSortOf(ks, vs), tm), Card: App(s+"_card", SInt, tm)}
 		return MapV{M: c, Nil: TFalse}
 	case *types.Pointer:
+		if in.isValuelike(u.Elem()) {
+			s := in.sortOf(t)
+			c := in.newCell("vptr", CVar, u.Elem())
+			in.initial[c] = in.thaw(App(s+"_val", in.sortOf(u.Elem()), tm), u.Elem(), f)
+			return PtrV{To: c, Nil: App(s+"_nil", SBool, tm)}
+		}
 		// pointers read back from containers: target identified by the Ref term (field-heap model)
 		c := in.W.refCell(in, tm, u.Elem())
 		return PtrV{To: c, Nil: Eq(tm, Term{S: "ref_nil", Sort: SRef})}
